@@ -86,6 +86,23 @@ Proof.
   rewrite !lenN_app, lenN_be_enc, IH. lia.
 Qed.
 
+Lemma lenN_wr_narrs l : lenN (flat_map wr_narr l) = sumN (map (fun a => 3 + sumN (map (fun x => 2 + lenN x) (snd a))) l).
+Proof.
+  induction l as [|a t IH]; [reflexivity|]. cbn [flat_map map sumN]. unfold wr_narr at 1.
+  rewrite !lenN_app, !lenN_be_enc, lenN_wr_nalus, IH. lia.
+Qed.
+
+Lemma lenN_wr_subsample w s : lenN (wr_subsample w s) = N.of_nat w + 6.
+Proof. destruct s as [[[a b] c] d]. unfold wr_subsample. rewrite !lenN_app, !lenN_be_enc. lia. Qed.
+
+Lemma lenN_wr_subs_entries v l :
+  lenN (flat_map (wr_subs_entry (subs_w v)) l) = sumN (map (fun e => 6 + lenN (snd e) * (if v =? 1 then 10 else 8)) l).
+Proof.
+  induction l as [|e t IH]; [reflexivity|]. cbn [flat_map map sumN]. unfold wr_subs_entry at 1.
+  rewrite !lenN_app, !lenN_be_enc, (lenN_flat_map_const _ _ _ (lenN_wr_subsample _)), IH.
+  unfold subs_w. destruct (v =? 1); lia.
+Qed.
+
 Lemma lenN_unity : lenN unity_matrix = 36.
 Proof. reflexivity. Qed.
 
@@ -199,4 +216,6 @@ Proof.
   - (* emsg *) cbn [size_leaf]. destruct (version =? 1); lens; lia.
   - (* elng *) cbn [size_leaf chunk nth]. destruct missing; lens; lia.
   - (* kind *) lens. lia.
+  - (* hvcC *) cbn [size_leaf chunk nth hd]. lens. rewrite lenN_wr_narrs. lia.
+  - (* subs *) cbn [size_leaf]. lens. rewrite lenN_wr_subs_entries. lia.
 Qed.
